@@ -258,9 +258,78 @@ def check_interleave(rep, c, a):
                       dumps_equal=got['dumps'] == ref['dumps'])
 
 
+def real_socket_probe(ctx, rep):
+    """the REAL sync servers (socketserver loop, threads, OS sockets) on 127.0.0.1 with an ephemeral port: a maximum-size
+    request, an ordinary one and two pipelined ones must be answered exactly as the in-process run of the same front-end
+    answers them.  This is the one place where the serving loop itself (receive buffer size, handler threads) is exercised."""
+    import socket
+    import threading
+    from pymodbus.server.sync import ModbusUdpServer, ModbusTcpServer
+    lay = {'blocks': [{'kind': 'seq', 'address': 0, 'values': [0] * 200}], 'd': 0, 'c': 0, 'i': 0, 'h': 0, 'zero': True}
+    units = [[0, lay]]
+    big = {'t': 'writeRegisters', 'address': 3, 'count': 123, 'byte_count': 246, 'values': [(7 * i + 1) % 65536 for i in range(123)]}
+    big['raw'] = [b for v in big['values'] for b in (v >> 8, v & 255)]
+    small = {'t': 'readHolding', 'address': 3, 'count': 5}
+    f_big = serverlib.frame_request('tcp', big, 1, 0x1234)            # 259 bytes
+    f_small = serverlib.frame_request('tcp', small, 1, 0x1235)
+    f_small2 = serverlib.frame_request('tcp', {'t': 'readHolding', 'address': 100, 'count': 120}, 1, 0x1236)
+    for kind, cls in (('syncUdp', ModbusUdpServer), ('syncTcp', ModbusTcpServer)):
+        chunks = [f_big, f_small, f_small + f_small2] if kind == 'syncTcp' else [f_big, f_small, f_small2]
+        case = dict(kind='real-socket', frontend=kind, framer='tcp', single=True, units=units, ignore_missing=False, broadcast=False, chunks=chunks)
+        expected = canon_real(kind, serverlib.run_real(case))['out']
+        store, _ = frontends.mk_units(True, units)
+        frontends.initial_control()
+        srv = None
+        try:
+            srv = cls(store, address=('127.0.0.1', 0))
+            port = srv.socket.getsockname()[1]
+        except OSError as e:
+            rep.hist['real-socket:unavailable:%s' % kind] += 1
+            rep.notes.append('real-socket probe skipped for %s: %s' % (kind, e))
+            if srv is not None:
+                srv.server_close()
+            continue
+        th = threading.Thread(target=srv.serve_forever, kwargs={'poll_interval': 0.02}, daemon=True)
+        th.start()
+        got = []
+        try:
+            if kind == 'syncUdp':
+                c = socket.socket(socket.AF_INET, socket.SOCK_DGRAM)
+            else:
+                c = socket.create_connection(('127.0.0.1', port), timeout=3)
+            c.settimeout(3)
+            for ch, exp in zip(chunks, expected):
+                if kind == 'syncUdp':
+                    c.sendto(bytes(ch), ('127.0.0.1', port))
+                else:
+                    c.sendall(bytes(ch))
+                buf = b''
+                try:
+                    while len(buf) < len(exp):
+                        part = c.recvfrom(2048)[0] if kind == 'syncUdp' else c.recv(2048)
+                        if not part:
+                            break
+                        buf += part
+                except (socket.timeout, OSError):
+                    pass
+                got.append(list(buf))
+            c.close()
+        finally:
+            srv.shutdown()
+            srv.server_close()
+            th.join(timeout=3)
+        rep.case(('real-socket', kind), nontrivial=True, tag='real-socket:' + kind)
+        if got != expected:
+            k = next((j for j, (a, b) in enumerate(zip(got, expected)) if a != b), None)
+            rep.violation('the real %s server on a loopback socket does not answer like the in-process front-end (same bytes in)' % kind,
+                          dict(case, kind='real-socket'), chunk=k, request_bytes=len(chunks[k]) if k is not None else None,
+                          got=(got[k][:40] if k is not None else None), expected=(expected[k][:40] if k is not None else None))
+
+
 def run(ctx):
     rep = Report(RULE)
     rng = ctx.rng
+    real_socket_probe(ctx, rep)
     for c in ctx.corpus():
         if c.get('kind') in ('server', 'interleave'):
             res = serverlib.run_both(ctx, [c])
@@ -280,6 +349,9 @@ def run(ctx):
 def replay(ctx, payload):
     rep = Report(RULE)
     c = dict(payload['case'])
+    if c.get('kind') == 'real-socket':
+        real_socket_probe(ctx, rep)
+        return rep.violations[0]['what'] if rep.violations else None
     if c.get('kind') == 'equiv':
         a = serverlib.run_real(c)
         b = serverlib.run_real(dict(c, frontend=c['other']))
